@@ -7,13 +7,28 @@
 (*   - one account on the non-factory denoms (native, factory/x, factory//x, bad creator); *)
 (*   - creation of every sub-denom (also the one named like the native denom) and          *)
 (*     creation with somebody else as creator.                                             *)
+(* The sub-denomination is a dimension of its own: the model's sub-denom slots are bound,  *)
+(* per history, to literal strings of the classes below (Bindings); the binding and the    *)
+(* genesis variant (native denom with / without bank metadata) are the first entry of the   *)
+(* history and part of the cover view.                                                      *)
+(*   1 "sa"  2 "sb" plain          3 "sa/x" contains '/'                                    *)
+(*   4 "../x"  5 "../../ugrain"  6 "a/../../../ibc/ABC"   '..' climbing 1 / 2 / 3 levels    *)
+(*     (a path-cleaning join would land on factory/x, the native denom, ibc/ABC)            *)
+(*   7 "./sa" './' prefix   8 "sa//x" '//' inside   9 "sa/" trailing '/'   10 "" empty       *)
+(*     (cleaning would merge 7 and 9 with 1, 8 with 3, and turn 10 into factory/<creator>)   *)
 EXTENDS TokenFactory, Json
 CONSTANTS EmitAt, MaxMinted,
+          Bindings,     \* set of <<class of slot 1, class of slot 2>>
           ProbeDepth    \* cover mode: attempts on unknown / non-factory denoms only from states reached by at most that many steps
 VARIABLE hist
 
 FundsSmall == <<2, 1, 0>>
 FundsBig   == <<2, 2, 1>>
+SubClasses == 1..10
+PlainBinding == {<<1, 2>>}
+\* every class once, paired with the class a cleaning join would merge it with / with another climber
+HostileBindings == {<<1, 7>>, <<9, 1>>, <<3, 8>>, <<4, 5>>, <<6, 10>>}
+AllBindings == {<<a, b>> : a \in SubClasses, b \in SubClasses} \ {<<a, a>> : a \in SubClasses}
 Other(a) == (a % Cardinality(Accounts)) + 1
 Created == DOMAIN denoms
 Probe == CHOOSE a \in Accounts : \A b \in Accounts : a <= b
@@ -41,12 +56,13 @@ GAct == GCreate \/ GStored \/ GUnknown \/ GSpecial
 
 Step(r) == [act |-> r.act, args |-> [who |-> r.who, as |-> r.as, c |-> r.c, s |-> r.s, amt |-> r.amt, new |-> r.new]]
 \* the first entry tells the driver which genesis to build (creation fees every account can pay)
-GInit == Init /\ hist = <<[act |-> "Genesis", args |-> [funds |-> Funds]]>>
+GInit == \E b \in Bindings, m \in NativeMetas :
+           InitWith(m) /\ hist = <<[act |-> "Genesis", args |-> [funds |-> Funds, subs |-> b, nmeta |-> m]]>>
 GNext == GAct /\ hist' = Append(hist, Step(last'))
 
 \* the incoming action and its result are part of the view: a rejected message leaves the state
 \* unchanged and still gets a history of its own
-GView == <<last, res, svars>>
+GView == <<hist[1], last, res, svars>>
 GConstr == /\ nops <= MaxOps
            /\ \A d \in AllDenoms : minted[d] <= MaxMinted
 \* cover mode: emit at rejected steps (their continuations are those of the unchanged state) and at the bound;
